@@ -1,14 +1,20 @@
-"""U23: record by record, the mapper builder and the cache writer store the SAME abstract entry (C02 / C01, pure lemma).
+"""U23: the mapper builder and the cache writer collect the SAME entries (C02 / C01 / C03 / C04, pure lemmas; no function of /repo is verified here).
 
-No function of /repo is verified here. The unit connects four specifications that are each proved against the real code elsewhere:
-  * `stored_entry(lm, original_class, original, file_name)` -- the MemberMapping the mapper builder pushes for a method record (u6 mapper / u13),
-  * `stored_member(lm, table, obfuscated, original, original_class, arguments, file_off)` -- the Member the cache writer pushes (u6 writer / u14),
+The unit connects specifications that are each proved against the real code elsewhere, cut out of the text of the units / contract files that use
+them (see `cut`; nothing is re-typed):
+  * `stored_entry` / `astep` / `run` / `built` -- what the mapper builder does per record and as a whole (u6 mapper, u13),
+  * `stored_member` / `w_step` / `w_run` / `w_flush` -- what the cache writer's collection loop does (u6 writer, u14),
   * `abs_mm` / `abs_member(string bytes, .)` -- how the two readers interpret what they find (u2 / u1), both into the shared `Entry` of model.rs.
-Lemma: for every method record in the property's domain, `abs_member(bytes(table), stored_member(..)) == abs_mm(stored_entry(..))`, provided the string
-table reads back what it handed out. So equal records give equal abstract entries, and by the readers' contracts equal answers.
-The spec text is NOT re-typed: each definition is cut out of the text of the unit / contract file that uses it (see `cut`).
-ASSUMED: the string-table round trip of watto (`tbl(table_bytes(t), off) == Some(s)` when `offset_of(t, s) == Some(off)`, offsets below 2^32-1).
-Not proved here: that the two folds put these entries at the same positions (`built` vs `w_run`, two parallel definitions).
+Lemmas:
+  1. same abstract entry per method record: `abs_member(bytes(table), stored_member(..)) == abs_mm(stored_entry(..))`;
+  2. the sourceFile header rule: after ANY header record (with or without a value) both steps leave the same file for the class
+     (this is the obligation that exposed defect D7);
+  3. THE REFINEMENT (induction over the record stream, one step lemma per record kind): for a mapping in the property's domain (non-empty class
+     names, line numbers below 2^32-1) and any table sequence allowed by u14 (`tables_ok`), `built(recs, true)` and `w_flush(w_run(ts, recs))` have the
+     same class keys and, under every key, related class fields and the same abstract entries at the same positions -- per method name and per
+     (method name, arguments).
+ASSUMED: the string-table round trip of watto for the strings of the records (`resolves`: an offset handed out reads back the string from the
+final table's bytes; offsets below 2^32-1).
 """
 import re
 
@@ -78,6 +84,213 @@ pub proof fn lemma_header_record_keeps_the_same_source_file_in_both_builders<'s>
                      w_step(w, tf, ProguardRecord::Header { key, value }, next).cur.class.file_name_offset),
 {
 }
+
+// ======== positional refinement: the two abstract folds store related states, record after record ========
+pub open spec fn rel_members<'s>(sb: Seq<u8>, ms: Seq<Member>, es: Seq<MemberMapping<'s>>) -> bool {
+    ms.len() == es.len() && forall|i: int| 0 <= i < ms.len() ==> abs_member(sb, #[trigger] ms[i]) == abs_mm(es[i])
+}
+pub open spec fn rel_class<'s>(tn: StringTable, a: AClass<'s>, w: ACip<'s>) -> bool {
+    let sb = table_bytes(tn);
+    &&& w.name == a.obfuscated
+    &&& (a.original@.len() > 0) == (w.name@.len() > 0)
+    &&& file_rel(tn, a.file_name, w.class.file_name_offset) && opt_resolves(tn, a.file_name)
+    &&& (a.original@.len() > 0 ==> w.class.original_name_offset == off32(tn, a.original@) && w.class.obfuscated_name_offset == off32(tn, a.obfuscated@)
+            && resolves(tn, a.original@) && resolves(tn, a.obfuscated@))
+    &&& forall|k: &'s str| rel_members(sb, #[trigger] (w.members)(k), members_of(a, k).all)
+    &&& forall|k: &'s str, p: &'s str| rel_members(sb, #[trigger] (w.by)((k, p)), by_of(members_of(a, k), p))
+}
+pub open spec fn rel_state<'s>(tn: StringTable, a: AState<'s>, w: AWState<'s>) -> bool {
+    &&& rel_class(tn, a.cur, w.cur)
+    &&& a.seen == w.cur.seen
+    &&& forall|k: &'s str| a.done.contains_key(k) == w.done.contains_key(k)
+    &&& forall|k: &'s str| #[trigger] a.done.contains_key(k) ==> rel_class(tn, a.done[k], w.done[k])
+}
+// offsets handed out by an earlier table are the offsets of the final table
+pub open spec fn stable(t: StringTable, tn: StringTable) -> bool {
+    forall|x: Seq<char>| #[trigger] offset_of(t, x) is Some ==> offset_of(tn, x) == offset_of(t, x)
+}
+// the property's domain, record by record, and the string-table round trip for the record's strings in the final table
+pub open spec fn rec_ok<'s>(tn: StringTable, rec: ProguardRecord<'s>) -> bool {
+    match rec {
+        ProguardRecord::Header { key, value } => key@ == "sourceFile"@ ==> opt_resolves(tn, value),
+        ProguardRecord::Class { original, obfuscated } => original@.len() > 0 && obfuscated@.len() > 0 && resolves(tn, original@) && resolves(tn, obfuscated@),
+        ProguardRecord::Method { ty, original, obfuscated, arguments, original_class, line_mapping } =>
+            lm_in_domain(line_mapping) && resolves(tn, original@) && opt_resolves(tn, original_class),
+        _ => true,
+    }
+}
+pub open spec fn strings_in<'s>(t: StringTable, rec: ProguardRecord<'s>) -> bool {
+    forall|i: int| 0 <= i < strings_of(rec).len() ==> offset_of(t, #[trigger] strings_of(rec)[i]) is Some
+}
+pub proof fn lemma_rel_members_push<'s>(sb: Seq<u8>, ms: Seq<Member>, es: Seq<MemberMapping<'s>>, m: Member, e: MemberMapping<'s>)
+    requires rel_members(sb, ms, es), abs_member(sb, m) == abs_mm(e),
+    ensures rel_members(sb, ms.push(m), es.push(e)),
+{
+    assert forall|i: int| 0 <= i < ms.push(m).len() implies abs_member(sb, #[trigger] ms.push(m)[i]) == abs_mm(es.push(e)[i]) by {
+        if i < ms.len() { assert(ms.push(m)[i] == ms[i] && es.push(e)[i] == es[i]); }
+    }
+}
+pub proof fn lemma_step_header<'s>(tn: StringTable, a: AState<'s>, w: AWState<'s>, tf: StringTable, key: &'s str, value: Option<&'s str>, next: Option<&ProguardRecord<'s>>)
+    requires rel_state(tn, a, w), stable(tf, tn), rec_ok(tn, ProguardRecord::Header { key, value }), strings_in(tf, ProguardRecord::Header { key, value }),
+    ensures rel_state(tn, astep(a, true, ProguardRecord::Header { key, value }, next), w_step(w, tf, ProguardRecord::Header { key, value }, next)),
+{
+    let rec = ProguardRecord::Header { key, value };
+    let a1 = astep(a, true, rec, next); let w1 = w_step(w, tf, rec, next);
+    if key@ == "sourceFile"@ {
+        match value { Some(f) => { assert(strings_of(rec)[0] == f@); assert(offset_of(tf, f@) is Some); }, None => {} }
+    }
+    assert forall|k: &'s str| rel_members(table_bytes(tn), #[trigger] (w1.cur.members)(k), members_of(a1.cur, k).all) by {
+        assert((w1.cur.members)(k) == (w.cur.members)(k)); assert(members_of(a1.cur, k) == members_of(a.cur, k));
+    }
+    assert forall|k: &'s str, p: &'s str| rel_members(table_bytes(tn), #[trigger] (w1.cur.by)((k, p)), by_of(members_of(a1.cur, k), p)) by {
+        assert((w1.cur.by)((k, p)) == (w.cur.by)((k, p))); assert(members_of(a1.cur, k) == members_of(a.cur, k));
+    }
+}
+
+pub proof fn lemma_step_class<'s>(tn: StringTable, a: AState<'s>, w: AWState<'s>, tf: StringTable, original: &'s str, obfuscated: &'s str, next: Option<&ProguardRecord<'s>>)
+    requires rel_state(tn, a, w), stable(tf, tn), rec_ok(tn, ProguardRecord::Class { original, obfuscated }), strings_in(tf, ProguardRecord::Class { original, obfuscated }),
+    ensures rel_state(tn, astep(a, true, ProguardRecord::Class { original, obfuscated }, next), w_step(w, tf, ProguardRecord::Class { original, obfuscated }, next)),
+{
+    let rec = ProguardRecord::Class { original, obfuscated };
+    let a1 = astep(a, true, rec, next); let w1 = w_step(w, tf, rec, next);
+    let sb = table_bytes(tn);
+    assert(strings_of(rec)[0] == obfuscated@ && strings_of(rec)[1] == original@);
+    assert(offset_of(tf, obfuscated@) is Some && offset_of(tf, original@) is Some);
+    // the new class in progress
+    assert forall|k: &'s str| rel_members(sb, #[trigger] (w1.cur.members)(k), members_of(a1.cur, k).all) by {
+        assert((w1.cur.members)(k) == Seq::<Member>::empty()); assert(members_of(a1.cur, k) == no_members::<'s>());
+    }
+    assert forall|k: &'s str, p: &'s str| rel_members(sb, #[trigger] (w1.cur.by)((k, p)), by_of(members_of(a1.cur, k), p)) by {
+        assert((w1.cur.by)((k, p)) == Seq::<Member>::empty()); assert(members_of(a1.cur, k) == no_members::<'s>());
+    }
+    assert(rel_class(tn, a1.cur, w1.cur));
+    // the finished class is stored under the same key, or not at all, on both sides
+    assert forall|k: &'s str| a1.done.contains_key(k) == w1.done.contains_key(k) by {}
+    assert forall|k: &'s str| #[trigger] a1.done.contains_key(k) implies rel_class(tn, a1.done[k], w1.done[k]) by {
+        if a.cur.original@.len() > 0 && k == a.cur.obfuscated { } else { assert(a.done.contains_key(k)); }
+    }
+}
+pub proof fn lemma_step_method<'s>(tn: StringTable, a: AState<'s>, w: AWState<'s>, tf: StringTable, ty: &'s str, original: &'s str, obfuscated: &'s str, arguments: &'s str,
+        original_class: Option<&'s str>, line_mapping: Option<LineMapping>, next: Option<&ProguardRecord<'s>>)
+    requires rel_state(tn, a, w), stable(tf, tn),
+        rec_ok(tn, ProguardRecord::Method { ty, original, obfuscated, arguments, original_class, line_mapping }),
+        strings_in(tf, ProguardRecord::Method { ty, original, obfuscated, arguments, original_class, line_mapping }),
+    ensures rel_state(tn, astep(a, true, ProguardRecord::Method { ty, original, obfuscated, arguments, original_class, line_mapping }, next),
+                      w_step(w, tf, ProguardRecord::Method { ty, original, obfuscated, arguments, original_class, line_mapping }, next)),
+{
+    let rec = ProguardRecord::Method { ty, original, obfuscated, arguments, original_class, line_mapping };
+    let a1 = astep(a, true, rec, next); let w1 = w_step(w, tf, rec, next);
+    let sb = table_bytes(tn);
+    let ss = strings_of(rec);
+    assert(ss[0] == obfuscated@ && ss[1] == original@ && ss[2] == arguments@);
+    assert(offset_of(tf, obfuscated@) is Some && offset_of(tf, original@) is Some && offset_of(tf, arguments@) is Some);
+    match original_class { Some(c) => { assert(ss[3] == c@); assert(offset_of(tf, c@) is Some); }, None => {} }
+    let foff = w.cur.class.file_name_offset;
+    let m = stored_member(line_mapping, tf, obfuscated, original, original_class, arguments, foff);
+    // the offsets of the record's strings are the same in the final table
+    assert(m == stored_member(line_mapping, tn, obfuscated, original, original_class, arguments, foff));
+    let e = stored_entry(line_mapping, original_class, original, a.cur.file_name);
+    lemma_builders_store_the_same_abstract_entry(line_mapping, tn, obfuscated, original, original_class, arguments, a.cur.file_name, foff);
+    assert(abs_member(sb, m) == abs_mm(e));
+    let indexed = !is_inlined_callee(line_mapping, next);
+    let fresh = indexed && !a.seen.contains((obfuscated, arguments, original));
+    let old_m = members_of(a.cur, obfuscated);
+    assert forall|k: &'s str| rel_members(sb, #[trigger] (w1.cur.members)(k), members_of(a1.cur, k).all) by {
+        if k == obfuscated {
+            lemma_rel_members_push(sb, (w.cur.members)(k), old_m.all, m, e);
+            assert(members_of(a1.cur, k).all == old_m.all.push(e));
+        } else {
+            assert((w1.cur.members)(k) == (w.cur.members)(k)); assert(members_of(a1.cur, k) == members_of(a.cur, k));
+        }
+    }
+    assert forall|k: &'s str, p: &'s str| rel_members(sb, #[trigger] (w1.cur.by)((k, p)), by_of(members_of(a1.cur, k), p)) by {
+        if k == obfuscated {
+            if fresh && p == arguments {
+                lemma_rel_members_push(sb, (w.cur.by)((k, p)), by_of(old_m, p), m, e);
+                assert(by_of(members_of(a1.cur, k), p) == by_of(old_m, p).push(e));
+            } else {
+                assert((w1.cur.by)((k, p)) == (w.cur.by)((k, p)));
+                assert(by_of(members_of(a1.cur, k), p) == by_of(old_m, p));
+            }
+        } else {
+            assert((w1.cur.by)((k, p)) == (w.cur.by)((k, p))); assert(members_of(a1.cur, k) == members_of(a.cur, k));
+        }
+    }
+}
+
+pub proof fn lemma_step<'s>(tn: StringTable, a: AState<'s>, w: AWState<'s>, tf: StringTable, rec: ProguardRecord<'s>, next: Option<&ProguardRecord<'s>>)
+    requires rel_state(tn, a, w), stable(tf, tn), rec_ok(tn, rec), strings_in(tf, rec),
+    ensures rel_state(tn, astep(a, true, rec, next), w_step(w, tf, rec, next)),
+{
+    match rec {
+        ProguardRecord::Header { key, value } => { lemma_step_header(tn, a, w, tf, key, value, next); },
+        ProguardRecord::Class { original, obfuscated } => { lemma_step_class(tn, a, w, tf, original, obfuscated, next); },
+        ProguardRecord::Method { ty, original, obfuscated, arguments, original_class, line_mapping } => {
+            lemma_step_method(tn, a, w, tf, ty, original, obfuscated, arguments, original_class, line_mapping, next);
+        },
+        _ => {},
+    }
+}
+// tables only grow (tables_ok): what table i handed out is what the last table hands out
+pub proof fn lemma_tables_stable<'s>(ts: Seq<StringTable>, recs: Seq<ProguardRecord<'s>>, nn: int, i: int)
+    requires tables_ok(ts, recs, nn), 0 <= i <= nn,
+    ensures stable(ts[i], ts[nn]),
+    decreases nn - i
+{
+    if i < nn {
+        lemma_tables_stable(ts, recs, nn, i + 1);
+        assert(table_grew(ts[(i + 1) - 1], ts[i + 1], strings_of(recs[(i + 1) - 1])));
+        assert forall|x: Seq<char>| #[trigger] offset_of(ts[i], x) is Some implies offset_of(ts[nn], x) == offset_of(ts[i], x) by {
+            assert(offset_of(ts[i + 1], x) == offset_of(ts[i], x));
+        }
+    }
+}
+pub open spec fn recs_ok<'s>(tn: StringTable, recs: Seq<ProguardRecord<'s>>) -> bool { forall|i: int| 0 <= i < recs.len() ==> rec_ok(tn, #[trigger] recs[i]) }
+
+pub proof fn lemma_runs_are_related<'s>(ts: Seq<StringTable>, recs: Seq<ProguardRecord<'s>>, n: int)
+    requires tables_ok(ts, recs, recs.len() as int), recs_ok(ts[recs.len() as int], recs), 0 <= n <= recs.len(),
+    ensures rel_state(ts[recs.len() as int], run(recs, true, n), w_run(ts, recs, n)),
+    decreases n
+{
+    let nn = recs.len() as int; let tn = ts[nn];
+    if n <= 0 {
+        let a = start_state::<'s>(); let w = AWState { done: Map::<&'s str, ACip<'s>>::empty(), cur: fresh_cip::<'s>() };
+        assert forall|k: &'s str| rel_members(table_bytes(tn), #[trigger] (w.cur.members)(k), members_of(a.cur, k).all) by {
+            assert((w.cur.members)(k) == Seq::<Member>::empty()); assert(members_of(a.cur, k) == no_members::<'s>());
+        }
+        assert forall|k: &'s str, p: &'s str| rel_members(table_bytes(tn), #[trigger] (w.cur.by)((k, p)), by_of(members_of(a.cur, k), p)) by {
+            assert((w.cur.by)((k, p)) == Seq::<Member>::empty()); assert(members_of(a.cur, k) == no_members::<'s>());
+        }
+        reveal_strlit("");
+        assert(a.cur.original@.len() == 0 && w.cur.name@.len() == 0);
+    } else {
+        lemma_runs_are_related(ts, recs, n - 1);
+        lemma_tables_stable(ts, recs, nn, n);
+        assert(table_grew(ts[n - 1], ts[n], strings_of(recs[n - 1])));
+        assert(rec_ok(tn, recs[n - 1]));
+        lemma_step(tn, run(recs, true, n - 1), w_run(ts, recs, n - 1), ts[n], recs[n - 1], next_of(recs, n));
+    }
+}
+// THE REFINEMENT: for a mapping in the property's domain, the mapper built with the parameter index and the classes collected by the cache writer
+// have the same class keys, and under every key the same abstract entries at the same positions (line-based lists and by-params lists)
+pub proof fn lemma_mapper_and_cache_writer_collect_the_same_entries<'s>(ts: Seq<StringTable>, recs: Seq<ProguardRecord<'s>>)
+    requires tables_ok(ts, recs, recs.len() as int), recs_ok(ts[recs.len() as int], recs),
+    ensures ({
+        let tn = ts[recs.len() as int]; let m = built(recs, true); let w = w_flush(w_run(ts, recs, recs.len() as int).done, w_run(ts, recs, recs.len() as int).cur);
+        &&& /*@L:mapper_and_cache_have_the_same_class_keys:C02,C04*/ forall|k: &'s str| m.contains_key(k) == w.contains_key(k)
+        &&& /*@L:same_entries_at_the_same_positions_under_every_class:C02,C01,C03*/ forall|k: &'s str| #[trigger] m.contains_key(k) ==> rel_class(tn, m[k], w[k])
+    }),
+{
+    let nn = recs.len() as int;
+    lemma_runs_are_related(ts, recs, nn);
+    let a = run(recs, true, nn); let ws = w_run(ts, recs, nn);
+    let m = built(recs, true); let w = w_flush(ws.done, ws.cur);
+    assert forall|k: &'s str| m.contains_key(k) == w.contains_key(k) by {}
+    assert forall|k: &'s str| #[trigger] m.contains_key(k) implies rel_class(ts[nn], m[k], w[k]) by {
+        if a.cur.original@.len() > 0 && k == a.cur.obfuscated { } else { assert(a.done.contains_key(k)); }
+    }
+}
+
 // the hypotheses are satisfiable whenever the table resolves the record's strings (no contradiction hidden in the requires)
 pub proof fn lemma_same_entry_instance(t: StringTable, original: &str)
     requires resolves(t, original@),
